@@ -19,5 +19,6 @@ func main() {
 	fmt.Println(synth.CondQueue(5))
 	fmt.Println(synth.Shadow())
 	fmt.Println(synth.NamedChan())
+	fmt.Println(synth.Memo(7), synth.Memo(7))
 	fmt.Println(synth.Summary())
 }
